@@ -1,12 +1,21 @@
 (* C13 — GCD, LCM, Bezout coefficients and multiple-of helpers are exact.
    Statements only; proofs live in proofs/GcdProofs{,2,3}.v (generic in the source-extracted
    parameters under gcd_ok / addsub_ok, instantiated at Extracted.pgr_gcd / Extracted.addsub).
-   gcd itself calls no big multiplication / division and is closed; lcm, Bezout and the
-   multiple-of helpers are stated for EVERY exact multiplication / division
-   ([bmul_exact], [bdivrem_exact] = the statements of Mul.umul_spec / Div.udivrem_spec). *)
+   gcd itself calls no big multiplication / division; lcm, Bezout and the multiple-of helpers
+   call the REAL models [pgr_bmul] = Mul.umul Extracted.mul and [pgr_bdivrem] = Div.udivrem
+   Extracted.div (proofs/PgrInst.v; exact by MulProofs5.umul_spec (C02) / DivProofsApi.udivrem_spec
+   (C03)).  No hypothesis other than canonicity is left. *)
 From BigNum Require Import Base BaseLemmas X86 AddSub AddSubProofs PgrLoop PgrLoopProofs Pow PowProofs
-  Gcd SpecGcd GcdProofs GcdProofs2 GcdProofs3 Div PgrInst Extracted InstAddSub InstPgr.
+  Gcd SpecGcd GcdProofs GcdProofs2 GcdProofs3 Div Mul PgrInst Extracted InstAddSub InstPgr.
 Open Scope Z_scope.
+
+(* what the theorems below are about: the real models at the extracted parameters *)
+Theorem C13_real_ops : pgr_bmul = Mul.umul Extracted.mul /\ pgr_bdivrem = Div.udivrem Extracted.div.
+Proof. split; reflexivity. Qed.
+Print Assumptions C13_real_ops.
+
+Local Notation Hm := pgr_bmul_exact.
+Local Notation Hd := pgr_bdivrem_exact.
 
 (* Stein's binary gcd computes the non-negative greatest common divisor (never OutOfFuel,
    never an internal panic); gcd(0,0) = 0, gcd(a,0) = |a|. *)
@@ -44,51 +53,49 @@ Proof. intros. apply igcd_spec; auto using addsub_params_ok, gcd_params_ok. Qed.
 Print Assumptions C13_igcd.
 
 (* lcm(a,b) = |a*b| / gcd(a,b), 0 if either is 0  (zlcm, SpecGcd.v) *)
-Theorem C13_lcm : forall bmul bdivrem, bmul_exact bmul -> bdivrem_exact bdivrem ->
+Theorem C13_lcm :
   (forall a b, canon a -> canon b ->
-     ulcm bmul bdivrem addsub pgr_gcd a b = Ret (enc (zlcm (val a) (val b)))) /\
+     ulcm pgr_bmul pgr_bdivrem addsub pgr_gcd a b = Ret (enc (zlcm (val a) (val b)))) /\
   (forall x y, icanon x -> icanon y ->
-     ilcm bmul bdivrem addsub pgr_gcd x y = Ret (ienc (zlcm (ival x) (ival y)))).
+     ilcm pgr_bmul pgr_bdivrem addsub pgr_gcd x y = Ret (ienc (zlcm (ival x) (ival y)))).
 Proof.
-  intros bmul bdivrem Hm Hd. split; intros.
-  - apply ulcm_spec; auto using addsub_params_ok, gcd_params_ok.
-  - apply ilcm_spec; auto using addsub_params_ok, gcd_params_ok.
+  split; intros.
+  - apply ulcm_spec; auto using Hm, Hd, addsub_params_ok, gcd_params_ok.
+  - apply ilcm_spec; auto using Hm, Hd, addsub_params_ok, gcd_params_ok.
 Qed.
 Print Assumptions C13_lcm.
 
-Theorem C13_gcd_lcm : forall bmul bdivrem, bmul_exact bmul -> bdivrem_exact bdivrem ->
+Theorem C13_gcd_lcm :
   (forall a b, canon a -> canon b ->
-     ugcd_lcm bmul bdivrem addsub pgr_gcd a b =
+     ugcd_lcm pgr_bmul pgr_bdivrem addsub pgr_gcd a b =
      Ret (enc (Z.gcd (val a) (val b)), enc (zlcm (val a) (val b)))) /\
   (forall x y, icanon x -> icanon y ->
-     igcd_lcm bmul bdivrem addsub pgr_gcd x y =
+     igcd_lcm pgr_bmul pgr_bdivrem addsub pgr_gcd x y =
      Ret (ienc (Z.gcd (ival x) (ival y)), ienc (zlcm (ival x) (ival y)))).
 Proof.
-  intros bmul bdivrem Hm Hd. split; intros.
-  - apply ugcd_lcm_spec; auto using addsub_params_ok, gcd_params_ok.
-  - apply igcd_lcm_spec; auto using addsub_params_ok, gcd_params_ok.
+  split; intros.
+  - apply ugcd_lcm_spec; auto using Hm, Hd, addsub_params_ok, gcd_params_ok.
+  - apply igcd_lcm_spec; auto using Hm, Hd, addsub_params_ok, gcd_params_ok.
 Qed.
 Print Assumptions C13_gcd_lcm.
 
 (* Bezout: extended_gcd (num-integer's default body run over the BigInt operators) returns
    canonical (g, x, y) with a*x + b*y = g = gcd(a,b) and g >= 0, for all signs *)
-Theorem C13_egcd : forall bmul bdivrem, bmul_exact bmul -> bdivrem_exact bdivrem ->
-  forall a b, icanon a -> icanon b ->
+Theorem C13_egcd : forall a b, icanon a -> icanon b ->
   exists g x y,
-    iextended_gcd bmul bdivrem addsub a b = Ret (ienc g, ienc x, ienc y) /\
+    iextended_gcd pgr_bmul pgr_bdivrem addsub a b = Ret (ienc g, ienc x, ienc y) /\
     ival a * x + ival b * y = g /\ g = Z.gcd (ival a) (ival b) /\ 0 <= g.
-Proof. intros. apply iextended_gcd_spec; auto using addsub_params_ok. Qed.
+Proof. intros. apply iextended_gcd_spec; auto using Hm, Hd, addsub_params_ok. Qed.
 Print Assumptions C13_egcd.
 
 (* ... and the coefficients are exactly those of the recurrence on Z (the driver's spec line) *)
-Theorem C13_egcd_refines : forall bmul bdivrem, bmul_exact bmul -> bdivrem_exact bdivrem ->
-  forall a b, icanon a -> icanon b ->
-  iextended_gcd bmul bdivrem addsub a b = omap ienc3 (spec_egcd (ival a) (ival b)) /\
-  iextended_gcd_lcm bmul bdivrem addsub a b = omap ienc4 (spec_egcd_lcm (ival a) (ival b)).
+Theorem C13_egcd_refines : forall a b, icanon a -> icanon b ->
+  iextended_gcd pgr_bmul pgr_bdivrem addsub a b = omap ienc3 (spec_egcd (ival a) (ival b)) /\
+  iextended_gcd_lcm pgr_bmul pgr_bdivrem addsub a b = omap ienc4 (spec_egcd_lcm (ival a) (ival b)).
 Proof.
   intros. split.
-  - apply iextended_gcd_refines; auto using addsub_params_ok.
-  - apply iextended_gcd_lcm_refines; auto using addsub_params_ok.
+  - apply iextended_gcd_refines; auto using Hm, Hd, addsub_params_ok.
+  - apply iextended_gcd_lcm_refines; auto using Hm, Hd, addsub_params_ok.
 Qed.
 Print Assumptions C13_egcd_refines.
 
@@ -104,27 +111,27 @@ Print Assumptions C13_spec_egcd_bezout.
 
 (* multiple-of helpers agree with their arithmetic definitions (floored modulus: Z.modulo);
    only zero is a multiple of zero; a zero divisor makes next/prev_multiple_of panic *)
-Theorem C13_multiples_u : forall bdivrem, bdivrem_exact bdivrem -> forall a b, canon a -> canon b ->
-  uis_multiple_of bdivrem a b = spec_is_multiple_of (val a) (val b) /\
-  unext_multiple_of bdivrem addsub a b = omap enc (spec_next_multiple_of (val a) (val b)) /\
-  uprev_multiple_of bdivrem addsub a b = omap enc (spec_prev_multiple_of (val a) (val b)).
+Theorem C13_multiples_u : forall a b, canon a -> canon b ->
+  uis_multiple_of pgr_bdivrem a b = spec_is_multiple_of (val a) (val b) /\
+  unext_multiple_of pgr_bdivrem addsub a b = omap enc (spec_next_multiple_of (val a) (val b)) /\
+  uprev_multiple_of pgr_bdivrem addsub a b = omap enc (spec_prev_multiple_of (val a) (val b)).
 Proof.
-  intros bdivrem Hd a b Ca Cb. split; [|split].
-  - apply uis_multiple_of_spec; auto.
-  - apply unext_multiple_of_spec; auto using addsub_params_ok.
-  - apply uprev_multiple_of_spec; auto using addsub_params_ok.
+  intros a b Ca Cb. split; [|split].
+  - apply uis_multiple_of_spec; auto using Hd.
+  - apply unext_multiple_of_spec; auto using Hd, addsub_params_ok.
+  - apply uprev_multiple_of_spec; auto using Hd, addsub_params_ok.
 Qed.
 Print Assumptions C13_multiples_u.
 
-Theorem C13_multiples_i : forall bdivrem, bdivrem_exact bdivrem -> forall x y, icanon x -> icanon y ->
-  iis_multiple_of bdivrem x y = spec_is_multiple_of (ival x) (ival y) /\
-  inext_multiple_of bdivrem addsub x y = omap ienc (spec_next_multiple_of (ival x) (ival y)) /\
-  iprev_multiple_of bdivrem addsub x y = omap ienc (spec_prev_multiple_of (ival x) (ival y)).
+Theorem C13_multiples_i : forall x y, icanon x -> icanon y ->
+  iis_multiple_of pgr_bdivrem x y = spec_is_multiple_of (ival x) (ival y) /\
+  inext_multiple_of pgr_bdivrem addsub x y = omap ienc (spec_next_multiple_of (ival x) (ival y)) /\
+  iprev_multiple_of pgr_bdivrem addsub x y = omap ienc (spec_prev_multiple_of (ival x) (ival y)).
 Proof.
-  intros bdivrem Hd x y Cx Cy. split; [|split].
-  - apply iis_multiple_of_spec; auto.
-  - apply inext_multiple_of_spec; auto using addsub_params_ok.
-  - apply iprev_multiple_of_spec; auto using addsub_params_ok.
+  intros x y Cx Cy. split; [|split].
+  - apply iis_multiple_of_spec; auto using Hd.
+  - apply inext_multiple_of_spec; auto using Hd, addsub_params_ok.
+  - apply iprev_multiple_of_spec; auto using Hd, addsub_params_ok.
 Qed.
 Print Assumptions C13_multiples_i.
 
@@ -150,7 +157,7 @@ Qed.
 Print Assumptions C13_inc_dec.
 
 
-(* CLOSED instances at the real division model Div.udivrem (C03): no hypothesis left *)
+(* the same, both types at once (kept under its historical name) *)
 Theorem C13_multiples_closed :
   (forall a b, canon a -> canon b ->
     uis_multiple_of pgr_bdivrem a b = spec_is_multiple_of (val a) (val b) /\
@@ -162,36 +169,19 @@ Theorem C13_multiples_closed :
     iprev_multiple_of pgr_bdivrem addsub x y = omap ienc (spec_prev_multiple_of (ival x) (ival y))).
 Proof.
   split; intros.
-  - apply C13_multiples_u; auto using pgr_bdivrem_exact.
-  - apply C13_multiples_i; auto using pgr_bdivrem_exact.
+  - apply C13_multiples_u; auto.
+  - apply C13_multiples_i; auto.
 Qed.
 Print Assumptions C13_multiples_closed.
 
-(* lcm / Bezout at the real division; the multiplication hypothesis remains until Mul is merged *)
-Theorem C13_lcm_egcd_div_closed : forall bmul, bmul_exact bmul ->
-  (forall a b, canon a -> canon b ->
-     ulcm bmul pgr_bdivrem addsub pgr_gcd a b = Ret (enc (zlcm (val a) (val b)))) /\
-  (forall a b, icanon a -> icanon b ->
-     exists g x y,
-       iextended_gcd bmul pgr_bdivrem addsub a b = Ret (ienc g, ienc x, ienc y) /\
-       ival a * x + ival b * y = g /\ g = Z.gcd (ival a) (ival b) /\ 0 <= g).
-Proof.
-  intros bmul Hm. split; intros.
-  - apply (C13_lcm bmul pgr_bdivrem Hm pgr_bdivrem_exact); auto.
-  - apply C13_egcd; auto using pgr_bdivrem_exact.
-Qed.
-Print Assumptions C13_lcm_egcd_div_closed.
-
-(* Non-vacuity: the hypotheses are satisfiable; a gcd with trailing zeros spanning a digit
+(* Non-vacuity (on the real multiplication and division models): a gcd with trailing zeros spanning a digit
    (gcd(3*2^65, 5*2^64+2^64) ...), a Bezout triple with mixed signs, a negative next multiple. *)
 Example C13_nonvacuous :
-  bmul_exact spec_bmul /\ bdivrem_exact spec_bdivrem /\
   canonb [0; 6] = true /\ canonb [0; 0; 10] = true /\
   ugcd addsub pgr_gcd [0; 6] [0; 0; 10] = Ret [0; 2] /\
-  iextended_gcd spec_bmul spec_bdivrem addsub (mkint Minus [12]) (mkint Plus [42]) =
+  iextended_gcd pgr_bmul pgr_bdivrem addsub (mkint Minus [12]) (mkint Plus [42]) =
     Ret (mkint Plus [6], mkint Plus [3], mkint Plus [1]) /\
-  inext_multiple_of spec_bdivrem addsub (mkint Minus [7]) (mkint Plus [3]) = Ret (mkint Minus [6]).
+  inext_multiple_of pgr_bdivrem addsub (mkint Minus [7]) (mkint Plus [3]) = Ret (mkint Minus [6]).
 Proof.
-  split; [exact spec_bmul_exact|]. split; [exact spec_bdivrem_exact|].
   repeat split; vm_compute; reflexivity.
 Qed.
